@@ -8,7 +8,14 @@
 #include <sys/eventfd.h>
 #include <unistd.h>
 #include <errno.h>
+#ifdef VK_BLOCKING
+#include <mutex>
+#include <condition_variable>
+#endif
 namespace vk {
+#ifdef VK_BLOCKING
+static std::mutex m; static std::condition_variable cv;      // the kernel's own serialisation; a thread in epoll_wait()/select() with nothing ready sleeps here
+#endif
 enum { NFD = 16, EVFD = 9 };
 static unsigned ready[NFD];                 // harness-controlled readiness of ordinary descriptors
 static unsigned reg_events[NFD]; static void *reg_ptr[NFD]; static bool reg_on[NFD];
@@ -23,8 +30,7 @@ int epoll_ctl(int, int op, int fd, struct epoll_event *ev) {
     if (op == EPOLL_CTL_DEL) { vk::reg_on[fd] = false; return 0; }
     vk::reg_on[fd] = true; vk::reg_events[fd] = ev->events; vk::reg_ptr[fd] = ev->data.ptr; return 0;
 }
-int epoll_wait(int, struct epoll_event *evs, int maxevents, int) {
-    vk::epoll_waits++;
+static int vk_epoll_collect(struct epoll_event *evs, int maxevents) {
     int n = 0;
     for (int fd = 0; fd < vk::NFD && n < maxevents; fd++) {
         if (!vk::reg_on[fd]) continue;
@@ -34,6 +40,17 @@ int epoll_wait(int, struct epoll_event *evs, int maxevents, int) {
         if (got) { evs[n].events = got; evs[n].data.ptr = vk::reg_ptr[fd]; n++; }
     }
     return n;
+}
+int epoll_wait(int, struct epoll_event *evs, int maxevents, int timeout) {
+#ifdef VK_BLOCKING
+    std::unique_lock<std::mutex> lk(vk::m);
+    vk::epoll_waits++;
+    int n = vk_epoll_collect(evs, maxevents);
+    while (n == 0 && timeout != 0) { vk::cv.wait(lk); n = vk_epoll_collect(evs, maxevents); }    // sleeps until a descriptor becomes ready (no timers in these harnesses)
+    return n;
+#else
+    (void)timeout; vk::epoll_waits++; return vk_epoll_collect(evs, maxevents);
+#endif
 }
 int select(int nfds, fd_set *r, fd_set *w, fd_set *e, struct timeval *) {
     vk::selects++;
@@ -47,8 +64,21 @@ int select(int nfds, fd_set *r, fd_set *w, fd_set *e, struct timeval *) {
     return n;
 }
 int eventfd(unsigned int, int) { return vk::EVFD; }
-ssize_t write(int fd, const void *p, size_t n) { if (fd == vk::EVFD && n == 8) { vk::evfd_counter += *static_cast<const unsigned long *>(p); return 8; } return (ssize_t)n; }
-ssize_t read(int fd, void *p, size_t n) { if (fd == vk::EVFD && n == 8) { if (!vk::evfd_counter) { errno = EAGAIN; return -1; } *static_cast<unsigned long *>(p) = vk::evfd_counter; vk::evfd_counter = 0; return 8; } errno = EAGAIN; return -1; }
+ssize_t write(int fd, const void *p, size_t n) {
+#ifdef VK_BLOCKING
+    std::lock_guard<std::mutex> lk(vk::m);
+#endif
+    if (fd == vk::EVFD && n == 8) { vk::evfd_counter += *static_cast<const unsigned long *>(p);
+#ifdef VK_BLOCKING
+        vk::cv.notify_all();
+#endif
+        return 8; }
+    return (ssize_t)n; }
+ssize_t read(int fd, void *p, size_t n) {
+#ifdef VK_BLOCKING
+    std::lock_guard<std::mutex> lk(vk::m);
+#endif
+    if (fd == vk::EVFD && n == 8) { if (!vk::evfd_counter) { errno = EAGAIN; return -1; } *static_cast<unsigned long *>(p) = vk::evfd_counter; vk::evfd_counter = 0; return 8; } errno = EAGAIN; return -1; }
 int close(int fd) { if (fd >= 0 && fd < vk::NFD) vk::closes[fd]++; return 0; }
 }
 #endif
